@@ -2,7 +2,7 @@
    (ReadArray<T> with T a ReadFrom tuple): reading the written records back.  Same development as
    Proofs/EncodeProofs.v (which covers unsigned fields only), over Layout.write_prim. *)
 From AV Require Import Base.Prelude Base.Lemmas Gen.ReaderPrims Model.Reader Model.ReaderExt
-  Proofs.ReaderProofs Proofs.EncodeProofs Model.Layout Proofs.LayoutProofs.
+  Proofs.ReaderProofs Proofs.EncodeProofs Model.TableLayout Proofs.TableLayoutProofs.
 From Coq Require Import ZifyBool ZifyNat.
 Ltac Zify.zify_post_hook ::= Z.div_mod_to_equations.
 Open Scope Z_scope.
